@@ -684,6 +684,24 @@ pub fn run(ctx: &Ctx) -> i32 {
             }
         }
     }
+    // the statement shapes through every driver (files split, pipe, CRLF, CSV / text, command line, follow mode)
+    {
+        let projections = ["*", "input", "v", "v AS x", "v + 1", "t.v", "k, v + 1, s AS z, upper(k)", "input, k"];
+        let filters = ["", "WHERE v > 1", "WHERE k = 'a'", "WHERE s IS NOT NULL AND v IS NOT NULL"];
+        let inputs: [Vec<&str>; 2] = [vec!["a 1 x", "b 2 y", "###", "a 3"], vec!["c  z", "a 1 x", "a 1 x"]];
+        let mut cases: Vec<(String, String, Vec<String>, bool)> = Vec::new();
+        for (pi, p) in projections.iter().enumerate() {
+            for (fi, f) in filters.iter().enumerate() {
+                for (ii, inp) in inputs.iter().enumerate() {
+                    cases.push((SDEF.to_string(), format!("SELECT {} FROM t {}", p, f).trim().to_string(), inp.iter().map(|s| s.to_string()).collect(), ii == 0 && (pi + fi) % 2 == 0));
+                }
+            }
+        }
+        for s in EMPTY_STMTS {
+            cases.push((EDEF.to_string(), s.to_string(), vec!["a".into(), "".into(), "k=b".into(), " ".into()], true));
+        }
+        crate::drivers::run_layer(&col, &cases, &|_| "select".to_string());
+    }
     col.layer("S-statement-shapes", n_s, true, json!({"projections": 8, "filters": 4, "line_sequences": nseq}));
     col.sample(json!({"layer": "S", "statement": "SELECT k, v + 1, s AS z, upper(k) FROM t WHERE v > 1", "lines": ["a 1 x", "###", "b 2 y"]}));
     finish(
